@@ -76,6 +76,11 @@ def check_pde(case):
         s1 = abs(eps * u_t) + abs(u_xx) + abs(v - u) + 1e-3 * u + 1e-12
         s2 = abs(v_t) + abs(u - v) + 1e-3 * u + 1e-12
         res.append((r1 / s1, r2 / s2))
+        if fac == 1.0:
+            # the transforms are evaluated with root finds / quadratures of absolute accuracy ~1e-6 (brentq xtol = 1e-6): in the second
+            # difference that noise is amplified by sum|C2| / hx^2, in the time difference by sum|C1| / ht
+            noise1 = 1e-6 * (64.0 / 12.0 / hx ** 2 + eps * 18.0 / 12.0 / ht) / s1
+            noise2 = 1e-6 * (18.0 / 12.0 / ht) / s2
     o.label('eps<0.5' if eps < 0.5 else ('eps>1.5' if eps > 1.5 else 'eps~1'), 'tau<1' if tau < 1 else 'tau>=1', 'u=%.0e' % u)
     # The transforms are integrated with an absolute error of ~1e-5 (growing with x): where the field itself is that small
     # ('for which the oscillatory integrals converge' in the property) the residuals measure quadrature noise, not the equations.
@@ -86,8 +91,8 @@ def check_pde(case):
     o.true('0 <= v <= u <= 1', -1e-9 <= v <= u + 5e-5 and u <= 1 + 1e-6, u=float(u), v=float(v))
     w1 = min(abs(res[0][0]), abs(res[1][0]))
     w2 = min(abs(res[0][1]), abs(res[1][1]))
-    o.close('radiation equation: eps u_tau = u_xx + (v - u)', w1, 0.0, 0.0, atol=3e-4, res_h=float(res[0][0]), res_h2=float(res[1][0]))
-    o.close('material equation: v_tau = u - v', w2, 0.0, 0.0, atol=3e-4, res_h=float(res[0][1]), res_h2=float(res[1][1]))
+    o.close('radiation equation: eps u_tau = u_xx + (v - u)', w1, 0.0, 0.0, atol=3e-4 + noise1, res_h=float(res[0][0]), res_h2=float(res[1][0]))
+    o.close('material equation: v_tau = u - v', w2, 0.0, 0.0, atol=3e-4 + noise2, res_h=float(res[0][1]), res_h2=float(res[1][1]))
     o.nontrivial = P['opac'] != 1.0 or P['trad_bc_ev'] != 1.0e3 or eps != 1.0
     return o
 
@@ -114,7 +119,8 @@ def check_bc(case):
     xfar = 6.0 * math.sqrt(tau / eps) * case['far'] + 10.0
     U, V = uv(s, P, [xfar, 2 * xfar], tau)
     # (down to the solver's quadrature noise floor ~1e-5 x/20 in v, i.e. T/T_bc < ~0.1)
-    o.true('u, v decay to zero for x -> infinity', bool(np.all(U < 1e-4 * (1 + xfar / 20)) and np.all(V < 1e-4 * (1 + xfar / 20))), U=U.tolist(), V=V.tolist(), xfar=xfar)
+    bound = 1e-4 * (1 + np.array([xfar, 2 * xfar]) / 20)      # (each point against the noise floor at its own position)
+    o.true('u, v decay to zero for x -> infinity', bool(np.all(U < bound) and np.all(V < bound)), U=U.tolist(), V=V.tolist(), xfar=xfar)
     o.label('eps<0.5' if eps < 0.5 else ('eps>1.5' if eps > 1.5 else 'eps~1'))
     o.nontrivial = P['opac'] != 1.0 or P['trad_bc_ev'] != 1.0e3 or eps != 1.0
     return o
